@@ -10,6 +10,12 @@ func init() {
 		for _, s := range c.Scripts {
 			d.RunScript(s)
 		}
+		if c.Mode == "multidenom" && len(c.Scripts) == 0 {
+			for _, s := range fam_feefree.MultiDenom() {
+				d.RunScript(s)
+			}
+			return d.Finish()
+		}
 		if len(c.Scripts) == 0 || c.NRand > 0 {
 			if c.Mode != "randonly" && len(c.Scripts) == 0 {
 				for _, s := range fam_feefree.Fixed() {
@@ -17,7 +23,8 @@ func init() {
 				}
 			}
 			// -nrand counts transactions, not scripts: random scripts of ~25 txs until the budget is used
-			for d.St.Txs < c.NRand {
+			base := d.St.Txs
+			for d.St.Txs-base < c.NRand {
 				d.RunScript(fam_feefree.RandomScript(c.Rng, 25))
 			}
 		}
